@@ -15,7 +15,7 @@ def gen_case(rng, cfg):
     g = Gen(rng, catch_all_p=cfg.get("catch_all_p", 0.12), raise_p=cfg.get("raise_p", 0.06),
             none_p=cfg.get("none_p", 0.04), fail_cell_p=cfg.get("fail_cell_p", 0.0),
             handled_seq_p=cfg.get("handled_seq_p", 0.0), lam_p=cfg.get("lam_p", 0.0),
-            space_p=cfg.get("space_p", 0.0), block_p=cfg.get("block_p", 0.0))
+            space_p=cfg.get("space_p", 0.0), block_p=cfg.get("block_p", 0.0), via_p=cfg.get("via_p", 0.0))
     if cfg.get("no_try_p") and rng.random() < cfg["no_try_p"]:
         g.no_try = True
     ncells = rng.randint(cfg.get("min_cells", 2), cfg.get("max_cells", 6))
